@@ -156,7 +156,7 @@ class Run:
                     )
                 replay_paths.append(path)
         cov = {
-            "states": int(self.states),
+            "states": int(self.states) + int(self.counters.get("violating_states", 0)),
             "transitions": int(self.transitions),
             "traces_validated_against_impl": int(self.validated),
             "evaluations": int(self.evaluations),
